@@ -40,6 +40,10 @@ where
     if !normalization.is_normal() || !normalization.is_sign_positive() {
         return Err(());
     }
+    if !probabilities.iter().all(|&probability| probability >= F::zero()) {
+        // Negative entries (or NaN) could otherwise cancel out in `normalization`.
+        return Err(());
+    }
     let scale = AsPrimitive::<F>::as_(free_weight.as_()) / normalization;
 
     let mut cumulative_float = F::zero();
